@@ -185,6 +185,53 @@ func genC20(ctx *Ctx) {
 			ctx.Input(ops, true)
 		}
 	}
+	// in-place writes to the nulls an array got by growing (never copied, so nothing else may change): two arrays grow
+	// with gaps, one padding element of the first is set in place, every register is observed
+	for L := 0; L <= 3; L++ {
+		for gap := 2; gap <= 4; gap++ {
+			var ops sx.List
+			ops = append(ops, sx.L(sx.I(7), sx.N(0), sx.I(0)))
+			for x := 0; x < L; x++ {
+				h := c20Host(ctx)
+				ops = append(ops, sx.L(sx.I(6), sx.N(0), h.enc, sx.N(h.kind), sx.I(0)))
+			}
+			ops = append(ops, sx.L(sx.I(1), sx.N(0), sx.N(0), sx.N(ctx.Rnd.Intn(3))), sx.L(sx.I(1), sx.N(1), sx.N(0), sx.N(ctx.Rnd.Intn(3))))
+			h := c20Host(ctx)
+			ops = append(ops, sx.L(sx.I(3), sx.N(0), sx.N(L+gap), h.enc, sx.N(h.kind), sx.I(0)))
+			h = c20Host(ctx)
+			ops = append(ops, sx.L(sx.I(3), sx.N(1), sx.N(L+gap), h.enc, sx.N(h.kind), sx.I(0)))
+			h = c20Host(ctx)
+			ops = append(ops, sx.L(sx.I(8), sx.N(0), sx.N(L), h.enc, sx.N(h.kind), sx.I(0)))
+			h = c20Host(ctx)
+			ops = append(ops, sx.L(sx.I(8), sx.N(1), sx.N(L+1), h.enc, sx.N(h.kind), sx.I(0)))
+			ops = append(ops, sx.L(sx.I(0), sx.N(2), sx.L(sx.I(0), sx.L()), sx.N(11), sx.I(0))) // a fresh null variant next to them
+			ctx.Count("padding-in-place")
+			ctx.Input(ops, true)
+		}
+	}
+	// a variant that shares a list by Assign is then set to another, shorter list: the other variant keeps its elements
+	for L := 1; L <= 4; L++ {
+		for M := 0; M <= L; M++ {
+			for fl := 0; fl < 3; fl++ {
+				var ops sx.List
+				ops = append(ops, sx.L(sx.I(7), sx.N(0), sx.I(0)), sx.L(sx.I(7), sx.N(1), sx.I(0)))
+				for x := 0; x < L; x++ {
+					h := c20Host(ctx)
+					ops = append(ops, sx.L(sx.I(6), sx.N(0), h.enc, sx.N(h.kind), sx.I(0)))
+				}
+				for x := 0; x < M; x++ {
+					h := c20Host(ctx)
+					ops = append(ops, sx.L(sx.I(6), sx.N(1), h.enc, sx.N(h.kind), sx.I(0)))
+				}
+				ops = append(ops, sx.L(sx.I(1), sx.N(0), sx.N(0), sx.N(0)))       // v0 = from list 0
+				ops = append(ops, sx.L(sx.I(2), sx.N(1), sx.N(0), sx.N(3)))       // v1.Assign(v0)
+				ops = append(ops, sx.L(sx.I(1), sx.N(1), sx.N(1), sx.N(fl)))      // v1 = / set to list 1
+				ops = append(ops, sx.L(sx.I(2), sx.N(2), sx.N(0), sx.N(0)))       // v2 = v0.Clone()
+				ctx.Count("assign-then-set-to-list")
+				ctx.Input(ops, true)
+			}
+		}
+	}
 }
 
 func hostOf(enc sx.SX, kind int) any {
@@ -336,6 +383,15 @@ func runC20(in sx.SX) (sx.SX, string) {
 		case 6:
 			lists[a] = append(lists[a], variants.NewVariant(hostOf(oo[2], int(sx.AsInt(oo[3])))))
 			sl[a] = append(append([]sx.SX{}, sl[a]...), oo[2])
+		case 8:
+			idx := int(sx.AsInt(oo[2]))
+			if e := v[a].GetByIndex(idx); e != nil {
+				e.SetAsObject(hostOf(oo[3], int(sx.AsInt(oo[4]))))
+			}
+			cur := sx.AsList(sx.AsList(sv[a])[1])
+			if idx < len(cur) {
+				sv[a] = sx.L(sx.I(10), sx.List(setNth(cur, idx, oo[3])))
+			}
 		default:
 			lists[a] = lists[a][:0]
 			sl[a] = nil
